@@ -219,3 +219,30 @@ Proof.
         (conj unparsable_since_refuted neq_refuted)))).
 Qed.
 Print Assumptions C16_prune_refuted.
+
+(** A numeric string reaches [normalize_integer_epoch] whatever its value (the RFC 3339
+    and date-only branches reject every optionally signed digit string). *)
+Theorem C16_decimal_string_is_integer : forall n,
+  parse_str_to_epoch_seconds (dec_of_Z n) = normalize_integer_epoch n.
+Proof. exact decimal_string_is_integer. Qed.
+Print Assumptions C16_decimal_string_is_integer.
+
+(** All STRING spellings of one instant agree: the ISO spelling with any offset / fraction /
+    separator / padding and the decimal strings of its s / ms / us / ns counts (inside their
+    digit bands) all go to [Some t] through [parse_str_to_epoch_seconds]. *)
+Theorem C16_all_string_spellings_agree : forall t frac sep off tz ws1 ws2 rms rus rns,
+  iso_t_lo <= t <= iso_t_hi ->
+  forallb is_digit frac = true -> sep_ok sep = true ->
+  Z.abs off <= 1439 -> tz_ok off tz ->
+  forallb is_ascii_ws ws1 = true -> forallb is_ascii_ws ws2 = true ->
+  0 <= rms < 1000 -> 0 <= rus < 1000000 -> 0 <= rns < 1000000000 ->
+  parse_str_to_epoch_seconds (ws1 ++ print_instant_gen t frac sep off tz ++ ws2) = Some t /\
+  (Z.abs t < 10 ^ 11 -> parse_str_to_epoch_seconds (dec_of_Z t) = Some t) /\
+  (10 ^ 11 <= Z.abs (t * 1000 + rms) < 10 ^ 14 ->
+     parse_str_to_epoch_seconds (dec_of_Z (t * 1000 + rms)) = Some t) /\
+  (10 ^ 14 <= Z.abs (t * 1000000 + rus) < 10 ^ 16 ->
+     parse_str_to_epoch_seconds (dec_of_Z (t * 1000000 + rus)) = Some t) /\
+  (10 ^ 16 <= Z.abs (t * 1000000000 + rns) < 10 ^ 19 ->
+     parse_str_to_epoch_seconds (dec_of_Z (t * 1000000000 + rns)) = Some t).
+Proof. exact all_string_spellings_agree. Qed.
+Print Assumptions C16_all_string_spellings_agree.
